@@ -298,3 +298,13 @@ def _thrift_small(prop, case, f):
         except Exception:
             return False
     return False
+
+
+@pred("categorical-null-in-required-column-written-as-index-minus-1")
+def _cat_minus1(prop, case, f):
+    # write_column writes data.cat.codes as they are: in a column without definition levels (has_nulls False / 'infer' / not listed)
+    # a missing cell becomes dictionary index -1 = 255 / 65535 / 2^32-1, which is outside the dictionary
+    if f.get("kind") != "invalid_parquet" or f.get("code") != "DICT_INDEX":
+        return False
+    d = f.get("detail", "")
+    return d.startswith(("index 255 out of range", "index 65535 out of range", "index 4294967295 out of range")) and f.get("has_nulls") is not True
